@@ -29,7 +29,7 @@ ASSUMPTIONS = [
 DECIDING = ['bp.encoding.bundle:Bundle.__bytes__', 'scapy_cbor.packets:CborArray.self_build', 'scapy_cbor.packets:CborArray.do_dissect',
             'bp.encoding.fields:EidField.i2m', 'bp.encoding.fields:EidField.m2i', 'bp.encoding.blocks:AbstractBlock.update_crc',
             'bp.encoding.bundle:Bundle.post_dissect']
-REQUIRED_OBS = ['d1_real_to_oracle', 'd2_real_roundtrip', 'd3_oracle_to_real', 'status_reports', 'fragments', 'typed_blocks']
+REQUIRED_OBS = ['d1_real_to_oracle', 'd2_real_roundtrip', 'd3_oracle_to_real', 'status_reports', 'fragments', 'typed_blocks', 'crc_recomputed_roundtrips']
 
 
 def cases(tier, seed):
